@@ -55,6 +55,14 @@ def h_roundtrip(ctx, t, n, twin=False):
     ctx.holds("timestamp length kept", len(u.timestamp) == t)
     ctx.holds("repack identical", u.pack() == raw)
     ctx.holds("space packet view", tm.to_space_packet().pack() == raw)
+    pack_hands_out_fresh_buffers(ctx, tm.pack, refb)
+    other1 = bytes(PusTm(service=200, subservice=9, timestamp=bytes(range(t)), source_data=b"\x55" * 5, apid=0x7FF, seq_count=0x3FFF,
+                         message_counter=0xFFFF, destination_id=0x1234).pack())
+    other2 = bytes(PusTm(service=1, subservice=1, timestamp=bytes(t)).pack())
+    earlier_result_survives(ctx, lambda: sym_and(u == tm, u.service == f["svc"], u.apid == f["apid"], u.seq_count == f["sc"],
+                                                 u.pus_tm_sec_header.message_counter == f["mc"], u.timestamp == ts, u.tm_data == data,
+                                                 u.pack() == raw),
+                            [lambda: PusTm.unpack(other1, t), lambda: PusTm.unpack(other2, t), lambda: tm.pack()])
     if twin:
         ctx.holds("twin", raw != refb)
 
